@@ -213,6 +213,22 @@ def run_mc(res, prop, tier):
             raise V.ToolError(f"necessity variant {cfg}: expected {expect}, got {r.get('violated')}")
 
 
+def run_mc_extend(res, tier):
+    """C06 'per-index results ... an empty entry exactly for the calls that panicked': par_extend and
+    the reused result buffer of the sample loop (Extend.tla); the 'fill only when grown' shortcut
+    (seeded four times) is the expected-to-fail variant."""
+    r = V.tlc_mc("MC_Extend", "Extend_q" if tier == "quick" else "Extend_t", workers=4)
+    res.add_mc("Extend", r)
+    if not r.get("ok"):
+        raise V.ToolError(f"MC_Extend: {r.get('violated') or r.get('error')}")
+    r = V.tlc_mc("MC_Extend", "Extend_v_fill_when_grown", workers=1, coverage=False)
+    expect = {"NoStaleEntryBelowLength", "ResultsAreThisRounds", "PanicSurfaces"}
+    res.extra.setdefault("necessity_variants", []).append(
+        {"config": "Extend_v_fill_when_grown", "expected": sorted(expect), "got": r.get("violated")})
+    if r.get("violated") not in expect:
+        raise V.ToolError(f"Extend_v_fill_when_grown: expected a violation, got {r.get('violated') or r.get('error')}")
+
+
 def run(prop, tier, seed):
     res = V.Result(prop, tier, seed)
     res.assumptions = [
@@ -221,6 +237,8 @@ def run(prop, tier, seed):
         "bounded: workers <= 3 in exhaustive model checking, preemption-bounded DFS and random schedules on the implementation",
     ]
     run_mc(res, prop, tier)
+    if prop == "C06":
+        run_mc_extend(res, tier)
 
     scs = gen_scenarios(tier, seed)
     trace_path, summary = V.run_driver(scs, f"{prop}.impl")
